@@ -475,7 +475,9 @@ pub fn case(tm: &Term) -> CaseOut {
             let peer_closed_at = w.conns[p].closed_at.unwrap_or(0);
             // the close must have arrived while this side was still alive
             let arrival = close_delivered_at.get(&k).copied().unwrap_or(peer_closed_at);
-            let alive_then = c.lost_at.map_or(true, |l| l >= arrival) && !matches!(c.drained_at, Some(d) if d < arrival);
+            // (a connection created afterwards - a late copy of the departed client's Initial starts a new
+            // server connection - never hears from that peer and rightly ends by idle timeout)
+            let alive_then = c.lost_at.map_or(true, |l| l >= arrival) && !matches!(c.drained_at, Some(d) if d < arrival) && c.created_us <= arrival;
             // after a targeted loss of the first close datagram(s) the closer repeats its close only in
             // answer to a packet of this side that reaches it before it has drained
             // (a packet it can process: 1-RTT packets, both sides established when close() was called;
